@@ -22,11 +22,44 @@ REORDER = r"Iterator>?::(filter|filter_map|rev|skip|skip_while|take|take_while|s
 PRESERVE = r"Iterator>?::(map|cloned|copied|by_ref|inspect|collect)$|IntoIterator>?::into_iter$|::iter$|::keys$|::values$|Deref>?::deref$|::as_slice$|Clone>?::clone$|::to_vec$|::iter_mut$"
 
 
-def chain_to_source(fb, f, enum_call):
+MUTATE = r"sort|dedup|retain|reverse|swap_remove|::remove$|truncate|drain|::insert$|::push$|::extend|::pop$|::clear$|::append$"
+
+
+def mutators(f, local):
+    """calls taking `&mut local` (directly or via a reborrow)"""
+    out = []
+    refs = set()
+    for s in f.stmts():
+        if s.rv == "ref" and s.j.get("mut") and s.place is not None and s.dst is not None and not s.dst.proj:
+            if s.place.local == local or (s.place.local in refs and "*" in s.place.proj):
+                refs.add(s.dst.local)
+    for _ in range(4):
+        for t in f.calls():
+            if re.search(r"deref_mut$|as_mut_slice$|as_mut$|borrow_mut$", t.callee or "") and t.dst is not None and not t.dst.proj:
+                if any(a is not None and not a.proj and a.local in refs for a in t.arg_places()):
+                    refs.add(t.dst.local)
+        for s in f.stmts():
+            if s.rv in ("ref", "use") and s.place is not None and s.dst is not None and not s.dst.proj and s.place.local in refs:
+                refs.add(s.dst.local)
+    for t in f.calls():
+        if re.search(r"deref_mut$|as_mut_slice$|as_mut$|borrow_mut$", t.callee or ""):
+            continue
+        for a in t.arg_places():
+            if a is not None and not a.proj and a.local in refs:
+                out.append(t)
+    return out
+
+
+def chain_to_source(fb, f, enum_call, visited=None):
     """walk back from the receiver of enumerate(): returns (source description, [offending calls])"""
     bad = []
     cur = op_place(enum_call.args[0]).local
     for _ in range(30):
+        if visited is not None:
+            visited.append(cur)
+        for m in mutators(f, cur):
+            if re.search(MUTATE, (m.declared or "") + "|" + (m.callee or "")) and m is not enum_call:
+                bad.append(m)
         if 1 <= cur <= f.argc:
             return ("param", f.local_ty(cur)), bad
         ds = local_defs(f, cur)
@@ -49,6 +82,49 @@ def chain_to_source(fb, f, enum_call):
             return ("call:" + (d.callee or "?"), f.local_ty(cur)), bad
         cur = a.local
     return ("deep", ""), bad
+
+
+def set_and_order(fb, f, local, depth):
+    """Is the collection in `local` (0 = return place) a sorted sequence of distinct keys? -> (distinct, ordered, trail)"""
+    distinct = ordered = False
+    trail = []
+    cur = local
+    for _ in range(30):
+        ty = f.local_ty(cur)
+        trail.append(ty.split("<")[0].split("::")[-1])
+        if re.search(r"collections::(BTreeSet|BTreeMap)<|btree_(set|map)::", ty):
+            return True, True, trail
+        if re.search(r"collections::(HashSet|HashMap)<|hash_(set|map)::", ty):
+            distinct = True
+        for m in mutators(f, cur):
+            n = (m.declared or "") + "|" + (m.callee or "")
+            if re.search(r"::sort(_unstable)?(_by|_by_key)?$", m.callee or ""):
+                ordered = True
+            if re.search(r"::dedup", n):
+                distinct = True
+        if 1 <= cur <= f.argc:
+            break
+        ds = local_defs(f, cur)
+        if len(ds) != 1:
+            break
+        d = ds[0]
+        if hasattr(d, "rv"):
+            rs = d.reads()
+            if d.rv in ("use", "ref", "copy_for_deref") and rs:
+                cur = rs[0].local
+                continue
+            break
+        name = (d.declared or "") + "|" + (d.callee or "")
+        if re.search(PRESERVE, name) and d.args and op_place(d.args[0]) is not None:
+            cur = op_place(d.args[0]).local
+            continue
+        g = fb.fns.get(d.callee)
+        if g is not None and depth > 0:
+            trail.append("-> " + g.name)
+            d2, o2, t2 = set_and_order(fb, g, 0, depth - 1)
+            return distinct or d2, ordered or o2, trail + t2
+        break
+    return distinct, ordered, trail
 
 
 def run(cx):
@@ -90,6 +166,13 @@ def run(cx):
             [p.fields() for d in g.stmts() for p in d.reads() if "refetch_paths" in p.fields()][:1]),
             "the vector of refetch queries is not built by an order-preserving pass over traversal_state.refetch_paths "
             "(%s)" % [((x.declared or x.callee) or "?").split("::")[-1] for x in bad], g.loc(t.line))
+    # ---- the parent's usedRefetchQueries list is the child's index space: sorted, distinct paths ---------
+    h = fb.one(r"reader_ast::refetched_paths_for_client_scalar_selectable$")
+    distinct, ordered, why = set_and_order(fb, h, 0, 3)
+    cx.ob("R25.used-refetch-queries", h.id + "|child-index-space-is-sorted-distinct-paths", distinct and ordered,
+          "usedRefetchQueries is read positionally with the child's local refetch index, which is a rank in the child's "
+          "RefetchedPathsMap (sorted, one entry per path); the list built here is %s%s (%s)" % (
+              "" if distinct else "not de-duplicated ", "" if ordered else "not sorted", why), h.loc(h.lo))
     # file names and imports use the same index
     syn = cx.syn()
     names = [m for m in syn["macros"] if m["file"].endswith(("entrypoint_artifact.rs", "imperatively_loaded_fields.rs"))
